@@ -47,7 +47,7 @@ PATCH_INPUTS = [([{"op": "add", "path": "/z", "value": 1}], "ok"), ([{"op": "rem
                 ([{"op": "addne", "path": "/a", "value": "kept?"}, {"op": "addne", "path": "/fresh", "value": 1}], "ok"), ([{"op": "addap", "path": "/a/99", "value": "appended"}], "ok"),
                 ([{"op": "move", "from": "/a/0", "path": "/m"}, {"op": "test", "path": "/m", "value": 1}, {"op": "replace", "path": "/m", "value": None}], "ok"),
                 ([1, 2], "patch"), ([{"path": "/a"}], "patch"), ([{"op": "ADD", "path": "/z", "value": 1}], "patch")]     # flag-sensitive: --no-unicode-escape / -u decide which member is meant
-DOC_KINDS = ["valid", "malformed", "undecodable", "bom", "utf16", "nonfinite", "word", "two-values", "open-string", "empty", "string-json", "string-plain"]       # the last two: valid JSON the library decodes from bytes (BOM, UTF-16)
+DOC_KINDS = ["valid", "bigint", "malformed", "undecodable", "bom", "utf16", "nonfinite", "word", "two-values", "open-string", "empty", "string-json", "string-plain"]       # the last two: valid JSON the library decodes from bytes (BOM, UTF-16)
 
 
 def gen(ctx):
@@ -85,6 +85,12 @@ def gen(ctx):
                                           "uri": uri, "doc": kind})
     cases.append({"cmd": "patch", "expr": "{not json", "expr_kind": "badpatch", "sink": "stdout", "stdin": False, "pretty": False, "debug": False, "noue": False, "uri": False, "doc": "valid"})
     cases.append({"cmd": "patch", "expr": b"\xff\xfe\xff", "expr_kind": "badpatch", "sink": "stdout", "stdin": False, "pretty": False, "debug": False, "noue": False, "uri": False, "doc": "valid"})
+    # an expression file that is not text: nothing the library could accept
+    for cmd, raw in (("path", b"$.caf\xe9"), ("pointer", b"/caf\xe9"), ("path", b"\xff\xfe$\x00.\x00a\x00"), ("pointer", b"/a/\x80")):
+        for debug in (False, True):
+            for pretty in (False, True):
+                cases.append({"cmd": cmd, "expr": raw, "expr_kind": "undecodable-file", "src": "file", "sink": "stdout", "stdin": False, "pretty": pretty, "debug": debug,
+                              "noue": False, "notc": False, "uri": False, "doc": "valid"})
     ctx.exhaustive_spaces.append("all option combinations of the three sub-commands (quick: sampled expressions per combination)")
     return cases
 
@@ -125,6 +131,7 @@ def evaluate(ctx, cases):
     tmp = tempfile.mkdtemp(prefix="jpverif-cli-", dir="/var/tmp")
     try:
         docs = {"valid": json.dumps(DOC).encode(), "malformed": b'{"a": [1, 2', "undecodable": b"\xff\xfe\xff",
+                "bigint": (json.dumps(DOC)[:-1] + ', "big": ' + "9" * 5000 + "}").encode(),      # JSON by the grammar; Python's decoder refuses the number (int() digit limit)
                 "word": b"nope", "two-values": b"1 2", "open-string": b'"unterminated', "empty": b"",      # not JSON, and without any bracket
                 "string-json": json.dumps(json.dumps(DOC)).encode(), "string-plain": b'"a[0] {x}"',      # valid documents whose top-level value is a string (one that holds JSON text, one that does not)
                 "nonfinite": json.dumps({**DOC, "a": [1e999, -1e999, {"b": float("nan")}], "k": 1e999}).encode(),      # Infinity / NaN, as Python's json reads and writes them
@@ -150,8 +157,8 @@ def evaluate(ctx, cases):
                     argv += [("--query" if lng else "-q") if c["cmd"] == "path" else ("--pointer" if lng else "-p"), c["expr"]]
                 else:
                     ef = os.path.join(tmp, f"expr{n}.txt")
-                    with open(ef, "w") as f:
-                        f.write(c["expr"] + "\n")
+                    with open(ef, "wb") as f:
+                        f.write((c["expr"] if isinstance(c["expr"], bytes) else c["expr"].encode("utf-8")) + b"\n")
                     argv += [(("--path-file" if c["cmd"] == "path" else "--pointer-file") if lng else "-r"), ef]
                 if c["cmd"] == "path" and c["notc"]:
                     argv.append("--no-type-checks")
@@ -192,6 +199,8 @@ def evaluate(ctx, cases):
             doc_bytes = docs[c["doc"]]
 
             def lib():
+                if c["expr_kind"] == "undecodable-file":
+                    return c["expr"].decode("utf-8")         # raises: the expression cannot even be read
                 if c["cmd"] == "path":
                     env = jsonpath.JSONPathEnvironment(unicode_escape=not c["noue"], well_typed=not c["notc"])
                     return env.compile(c["expr"]).findall(io.BytesIO(doc_bytes))
